@@ -23,7 +23,7 @@ import tempfile
 import shutil
 
 sys.path.insert(0, os.path.dirname(os.path.abspath(__file__)))
-from runall import run_all  # noqa: E402
+from runall import Scratch, run_all  # noqa: E402
 
 VERIF = "/verif"
 REPO = "/repo"
@@ -79,32 +79,19 @@ def main():
         meta["confirmed"] = bool(meta["applies"] and "1385 passed" in ot and rc0 == 0 and rc1 != 0)
     finally:
         sh(f"git -C {REPO} worktree remove --force {wt}")
-    # -- 3. run the checks against /repo with the patch applied
-    rc, o = sh("git status --porcelain", cwd=REPO)
-    if o.strip():
-        print("/repo is not clean; refusing to apply the seed")
-        return 2
-    caught = {}
-    # the unchanged tree must be silent, or nothing below means anything
+    # -- 3. run every quick check against a scratch worktree of /repo HEAD with the patch applied
     base = run_all()
     if base:
         print("checks not silent on the unchanged tree; fix that first:", sorted(base))
         return 2
-    rc, o = sh(f"git apply --check {patch}", cwd=REPO)
-    if rc != 0:
-        print("the patch does not apply to /repo HEAD any more (rebase it by hand):", o[-300:])
-        return 2
-    rc, o = sh(f"git apply {patch}", cwd=REPO)
-    try:
-        if rc == 0:
-            caught = run_all()
-    finally:
-        sh("git checkout -- . && git reset -q && git clean -fdq liquid", cwd=REPO)
-    rc, o = sh("git status --porcelain", cwd=REPO)
-    assert not o.strip(), "/repo not restored: " + o
+    with Scratch(patch) as sc:
+        if not sc.applied:
+            print("the patch does not apply to /repo HEAD any more (rebase it by hand):", sc.apply_error)
+            return 2
+        caught = run_all(root=sc.dir)
     meta["checks_that_fire"] = caught
     meta["caught_by_own_property_check"] = pid in caught
-    meta["ran"] = "tools/seed_eval.py (fresh worktree confirmation + every quick check on /repo with the patch applied, then reverted)"
+    meta["ran"] = "tools/seed_eval.py (fresh worktree confirmation: suite + demo; every quick check with VERIF_REPO=<scratch worktree of /repo HEAD + patch>)"
     json.dump(meta, open(os.path.join(out, "meta.json"), "w"), indent=1)
     print(json.dumps({k: meta[k] for k in ("name", "property", "confirmed", "caught_by_own_property_check")}, indent=0), "fired:", sorted(caught))
     return 0
